@@ -13,7 +13,7 @@ for P in "$@"; do
 import sys; sys.path.insert(0,'tools'); import gen_cases, compare, subprocess, collections
 st, mt = gen_cases.generate("$P", 1, 150, "work/seed.case")
 subprocess.run("./build/rbdl_driver work/seed.case > work/seed.impl; ./build/model_driver work/seed.case > work/seed.model", shell=True)
-r = compare.compare("work/seed.impl", "work/seed.model", same=[(m["case"], a, b, lab) for m in mt for (a, b, lab) in m.get("same", [])], unchanged_on_reject=True)
+r = compare.compare("work/seed.impl", "work/seed.model", same=[(m["case"],) + tuple(sm) for m in mt for sm in m.get("same", [])], unchanged_on_reject=True)
 print("raw profile $P:", r["cases"], "cases; corr mismatches", dict(collections.Counter(m["label"] for m in r["corr_mismatch"])), "; oracle mismatches", dict(collections.Counter(m["label"] for m in r["oracle_mismatch"])), "; crashed", len(r["crashed"]))
 PY
   fi
